@@ -217,6 +217,28 @@ func runCase(r *hx.Run, c hx.Case) {
 	r.Add(mc, fmt.Sprintf("ok %d %s", len(out), hx.Hex(out)), len(want) > 1)
 
 	checkLeaves(r, c.ID, out, want, len(parts), len(embeds), len(attach))
+
+	// the same message rendered again (the boundaries of the first render are cached in the Msg now): the same
+	// leaves, and byte-exact against the model with the cached boundaries
+	bm, br, ba := bytex.Boundaries(out)
+	desc2 := bytex.Describe(m, &spec, [3]string{bm, br, ba}, nil)
+	sink2 := &bytex.Sink{K: -1}
+	_, werr2, pan2 := bytex.SafeWriteTo(m, sink2)
+	if pan2 != nil || werr2 != nil {
+		r.Fail(c.ID, "render-failed", fmt.Sprint("second render: ", pan2, werr2))
+		return
+	}
+	out2 := sink2.Accepted
+	var rb2 [][]byte
+	b2m, b2r, b2a := bytex.Boundaries(out2)
+	for _, b := range []string{b2m, b2r, b2a} {
+		if b != "" {
+			rb2 = append(rb2, []byte(b))
+		}
+	}
+	d2 := strings.TrimSuffix(desc2, ";N-") + ";N" + hx.HexList(rb2)
+	r.Add(hx.Case{ID: c.ID + "-again", Kind: "render", Args: append([]string{d2, "inf"}, c.Args[2:]...)}, fmt.Sprintf("ok %d %s", len(out2), hx.Hex(out2)), len(want) > 1)
+	checkLeaves(r, c.ID, out2, want, len(parts), len(embeds), len(attach))
 }
 
 // checkLeaves is the direct oracle: the independent reader applied to the rendered bytes finds the expected
@@ -296,6 +318,7 @@ func Run(r *hx.Run, replay []hx.Case) {
 				runScript(r, c)
 				continue
 			}
+			c.ID = strings.TrimSuffix(c.ID, "-again")
 			if len(c.Args) < 6 {
 				r.Fail(c.ID, "bad-replay", "case needs 6 arguments")
 				continue
